@@ -285,6 +285,10 @@ def _tree_text_invariants(text: str, pairs) -> list[str]:
                 bad.append("dumps() misses a leaf that dump() has")
                 break
         for item in pairs.flatten():
+            if item.tag is not None and f"{item.tag} {item.name}" not in s_compact:
+                bad.append(f"dumps() does not show tag {item.tag!r} of {item.name}")
+                break
+        for item in pairs.flatten():
             dd = item.dump()
             if dd["span"]["start"] != item.start or dd["span"]["end"] != item.end or dd["span"]["str"] != text[item.start : item.end]:
                 bad.append("dump() span disagrees with the pair")
